@@ -243,6 +243,22 @@ def case_sidereal(mon, j, do_eq=True):
     mon.stat("gmst_daily_advance_err", adv, j)
     mon.check("gmst.daily-advance", adv <= 1e-7,
               {"jde": j, "gmst": th, "gmst(j+1)": th1})
+    # consecutive calls within one day, across noon and across midnight, and
+    # the first instant again: each still follows the IAU expression
+    fl = math.floor(j)
+    seq = [fl + (j - fl + 0.5) % 1.0, j, fl + 0.25, fl + 0.75, j + 1e-3, j]
+    for j2 in seq:
+        mon.evals += 1
+        try:
+            t2 = Epoch(j2).mean_sidereal_time()
+        except Exception as ex:
+            mon.dev("gmst==IAU1982", {"jde": j2, "after_call_at": j,
+                                      "raised": repr(ex)})
+            break
+        e2 = circ(t2, gmst_iau1982(j2))
+        mon.check("gmst==IAU1982", e2 <= 1e-7,
+                  {"jde": j2, "gmst": t2, "iau1982": gmst_iau1982(j2),
+                   "sequence_of_calls": [j, j + 1.0] + seq})
     if not do_eq:
         return
     try:
